@@ -26,6 +26,8 @@ from pharmpy.model.external.nonmem.update import reorder_diff  # noqa: E402
 
 N = int(os.environ.get('VH_N', '3'))
 LEN_OLD = int(os.environ.get('VH_LENOLD', '-1'))      # optional case split on len(old)
+LEN_NEW = int(os.environ.get('VH_LENNEW', '-1'))      # ... on len(new)
+HEAD = [int(t) for t in os.environ.get('VH_HEAD', '').split(',') if t != '']   # ... on old[0], new[0], old[1]
 LEN = int(os.environ.get('VH_LEN', '-1'))            # optional case split on len(script)
 OPS = [int(t) for t in os.environ.get('VH_OPS', '').split(',') if t != '']   # ... and on its first operations
 
@@ -38,9 +40,15 @@ def _lcs_len(a, b, i, j):
     return max(_lcs_len(a, b, i + 1, j), _lcs_len(a, b, i, j + 1))
 
 
+def _head_ok(old, new):
+    vals = [old[0] if len(old) > 0 else None, new[0] if len(new) > 0 else None, old[1] if len(old) > 1 else None]
+    return all(vals[i] == h for i, h in enumerate(HEAD))
+
+
 def diff_ok(old: List[int], new: List[int]) -> bool:
     """
-    pre: len(old) <= N and len(new) <= N and (LEN_OLD < 0 or len(old) == LEN_OLD)
+    pre: len(old) <= N and len(new) <= N and (LEN_OLD < 0 or len(old) == LEN_OLD) and (LEN_NEW < 0 or len(new) == LEN_NEW)
+    pre: _head_ok(old, new)
     pre: all(0 <= x <= 2 for x in old) and all(0 <= x <= 2 for x in new)
     post: _ == True
     """
@@ -56,7 +64,8 @@ def diff_ok(old: List[int], new: List[int]) -> bool:
 
 def diff_ok__twin(old: List[int], new: List[int]) -> bool:
     """
-    pre: len(old) <= N and len(new) <= N and (LEN_OLD < 0 or len(old) == LEN_OLD)
+    pre: len(old) <= N and len(new) <= N and (LEN_OLD < 0 or len(old) == LEN_OLD) and (LEN_NEW < 0 or len(new) == LEN_NEW)
+    pre: _head_ok(old, new)
     pre: all(0 <= x <= 2 for x in old) and all(0 <= x <= 2 for x in new)
     post: _ == True
     """
